@@ -127,7 +127,12 @@ def url_join(base_url, url, allow_relative, context, context_args):
     if url_is_absolute(url):
         return iri_to_uri(url)
     elif base_url:
-        return iri_to_uri(urljoin(base_url, url))
+        try:
+            return iri_to_uri(urljoin(base_url, url))
+        except ValueError as exception:
+            LOGGER.error(
+                f'Invalid URI reference ({exception}): {context}', *context_args)
+            return None
     elif allow_relative:
         return iri_to_uri(url)
     else:
